@@ -1,4 +1,5 @@
 import Grexv.Model.Api
+import Grexv.Model.Contracts
 
 /-
 Line-protocol driver helpers (no Mathlib anywhere below this file, so `gvdriver` links).
@@ -160,10 +161,24 @@ def compareApi (api : List Gen.Setter) : String :=
         if x == y then none else some (toString i ++ ":" ++ toString j ++ ":" ++ x ++ "!=" ++ y)
   if diffs.isEmpty then "A same" else "A " ++ ";".intercalate diffs
 
+/-- the executable hypotheses of the S7 theorem on the automata this input hands to `Expression::from` -/
+def handleContracts (bits minRep minLen : Nat) (ws : List Str) (dict : List DictEntry) : String :=
+  if !dictOk dict then "E contract" else
+  if ws.isEmpty then "P no-test-cases" else
+  let cfg := cfgOfBits bits minRep minLen
+  match regExpFrom cfg (mkEnv dict) ws with
+  | .error e => "P " ++ panicName e
+  | .ok st =>
+    "K " ++ (if elimContractsB cfg st.minimized then "1" else "0") ++ " " ++ (if elimContractsB cfg st.trie then "1" else "0")
+
 def handleLine (line : String) : String :=
   match line.trimAscii.toString.splitOn " " with
   | [kind, bits, mr, ml, tcs, dict] =>
-    if kind = "T" then
+    if kind = "K" then
+      match bits.toNat?, mr.toNat?, ml.toNat?, parseList tcs, parseDict dict with
+      | some b, some r, some l, some ws, some d => handleContracts b r l ws d
+      | _, _, _, _, _ => "E parse"
+    else if kind = "T" then
       match bits.toNat?, mr.toNat?, ml.toNat?, parseList tcs, parseDict dict with
       | some b, some r, some l, some ws, some d => handleTrace b r l ws d
       | _, _, _, _, _ => "E parse"
